@@ -7,7 +7,10 @@
    A second, independent invariant counts tickets (InvN).  The results are carried over to zmachine (integer cells =
    the code) by the machine homomorphism `length` (Proofs/C05_hom.v).
    7 thread sums, Inv; 8 reachable configurations, no deadlock, cool-down exit, writes, quiescence (lmachine);
-   9 tickets; 10 zmachine; 11 the values counted are the values observed (InvV). *)
+   8b NoR: with MinResetDuration = 0 no thread ever reaches a pc of the reset code (the hypothesis of 9, 11 and of C05_rt);
+   9 tickets; 10 zmachine; 11 the values counted are the values observed (InvV);
+   12 with resets: ticket counter = number of calls ticketed since the last reset swap (ledger), quiescence relative to it.
+   Inv, no deadlock, spin exits, writes_good and quiescent_L hold for every configuration, resets included. *)
 From Coq Require Import ZArith List Bool Lia Permutation Sorted.
 From Verif Require Import Base.F64 Base.Conc Model.ClassicHist Model.NativeHist Model.NativeConc Proofs.C02_proofs Proofs.C05_conc_inv Proofs.C05_hom.
 Import ListNotations.
